@@ -93,6 +93,18 @@ static void c08_case(const uint8_t* src, size_t len) {
       vh_violation("not-stateless", "the same call repeated after an unrelated call gave %s/read=%zu/required=%zu/%d callbacks instead of %s/read=%zu/required=%zu/%d",
                    st_name(res2.status), res2.read, res2.required, rec_n, st_name(res.status), res.read, res.required, n1);
   }
+  /* the outcome must not depend on callbacks the head has no use for: a table holding only the one callback the head
+   * calls for (none at all when no callback is due) must give the same result — any other call goes through NULL */
+  {
+    struct cbor_callbacks only = rec_table_only(t.status == RT_FINISHED ? t.slot : -1);
+    rec_reset();
+    struct cbor_decoder_result r5 = cbor_stream_decode(buf, len, &only, &ctx);
+    if (r5.status != res.status || r5.read != res.read || (res.status == CBOR_DECODER_NEDATA && r5.required != res.required) || rec_n != n1 ||
+        (n1 == 1 && rec_n == 1 && (rec_ev[0].slot != e1.slot || rec_ev[0].arg != e1.arg || rec_ev[0].ptr != e1.ptr || rec_ev[0].len != e1.len)))
+      vh_violation("depends-on-unrelated-callbacks", "with a table holding only the %s callback the call gave %s/read=%zu/%d callbacks instead of %s/read=%zu/%d", t.status == RT_FINISHED ? rslot_names[t.slot] : "(no)",
+                   st_name(r5.status), r5.read, rec_n, st_name(res.status), res.read, n1);
+    VH_COUNT("minimal_table_calls", 1);
+  }
   /* a FINISHED result must not depend on bytes beyond `read` */
   if (res.status == CBOR_DECODER_FINISHED && res.read <= len && res.read > 0) {
     uint8_t* cut = vh_exact(buf, res.read);
